@@ -680,18 +680,29 @@ def _clear_all():
         f.cache_clear()
 
 
-def _evict(n):
-    """n distinct keys through every bounded cache."""
-    ec = CURVES["secp112r1"]
-    for i in range(n):
-        Q = (*mult(i + 2, ec=ec), 1)
-        cg._cached_multiples(Q, ec)  # noqa: SLF001
-        cg._cached_odd_multiples_aff(Q, ec, 4)  # noqa: SLF001
-    for i in range(max(n, 2100)):
-        try:
-            bip32_mod._cached_base58_decode(f"junk{i}")  # noqa: SLF001
-        except Exception:  # noqa: BLE001
-            pass
+def _evict(n, kind, heavy=False):
+    """n distinct keys through the bounded caches this kind of call reads (more than their maxsize)."""
+    if kind in ("mult", "prepared", "double_mult", "multi_mult", "ssa", "dsa", "psig_verify", "session_values"):
+        ec = CURVES["secp112r1"]
+        for i in range(n):
+            Q = (*mult(i + 2, ec=ec), 1)
+            cg._cached_multiples(Q, ec)  # noqa: SLF001
+            cg._cached_odd_multiples_aff(Q, ec, 4)  # noqa: SLF001
+        if heavy:   # the fixed-base tables are the expensive ones: only where the witness asks
+            for i in range(135):
+                cg._cached_fixed_base_multiples((*mult(i + 2, ec=ec), 1), ec, 2)  # noqa: SLF001
+    if kind in ("derive", "b58cached"):
+        for i in range(max(n, 2100)):
+            try:
+                bip32_mod._cached_base58_decode(f"junk{i}")  # noqa: SLF001
+            except Exception:  # noqa: BLE001, S110
+                pass
+    if kind == "second_generator":
+        for i in range(max(n, 130)):
+            try:
+                pedersen.second_generator(CURVES["secp112r1"], functools.partial(hashlib.sha256, bytes([i % 256, i // 256])))
+            except Exception:  # noqa: BLE001, S110
+                pass
 
 
 def _cold(descs, no_bindings=False):
@@ -720,7 +731,7 @@ def _o_cache_independent(w):
             if cond == "clear":
                 _clear_all()
             elif cond == "evict":
-                _evict(w.get("n", 300))
+                _evict(w.get("n", 150), d[0], w.get("heavy", False))
             elif cond == "flag0":
                 set_serving(serving=False)
             elif cond == "flag1":
@@ -776,6 +787,71 @@ def _o_key_sound(w):
         same = all(ec.is_jac_equal(x, y) for x, y in zip(t1, t2))
         return same and len(t1) == len(t2), "Jacobian spellings"
     return False, "unknown probe"
+
+
+def _two_curves(x, y, a1, a2, p=10007):
+    """two curves over one field through the same point (x, y): equal points, different tables."""
+    out = []
+    for a in (a1, a2):
+        b = (y * y - x * x * x - a * x) % p
+        out.append(cg.CurveGroup(p, a, b))
+    return out
+
+
+def _same(f, g, args):
+    """f(*args) and g(*args) agree: same value, or the same exception class."""
+    def run(h):
+        try:
+            return ("ok", h(*args))
+        except Exception as e:  # noqa: BLE001
+            return ("err", _cls(e) + ":" + type(e).__name__)
+    return run(f) == run(g)
+
+
+def _o_vs_uncached(w):
+    """Every memoised function against its undecorated self, over a family of near-colliding arguments, in a
+    seeded order, twice (so every argument is answered once from a miss and once from a hit)."""
+    rng = random.Random(w["seed"])
+    fam = []
+    if w["family"] == "tables":
+        x, y = w["point"]
+        try:
+            ecs = _two_curves(x, y, w["a1"], w["a2"])
+        except Exception as e:  # noqa: BLE001 - singular curve for these parameters: nothing to probe
+            return True, f"no such pair of curves: {e}"
+        ecs.append(cg.CurveGroup(ecs[0].p, ecs[0]._a, ecs[0]._b))  # noqa: SLF001 - an equal curve, built again
+        for ec in ecs:
+            for z in (1, 2):
+                Q = (x * z * z % ec.p, y * z * z * z % ec.p, z)
+                fam.append((cg._cached_multiples, (Q, ec)))  # noqa: SLF001
+                for wd in (1, True, 2, 3, 4):
+                    fam.append((cg._cached_multiples_fixwind, (Q, ec, wd)))  # noqa: SLF001
+                    fam.append((cg._cached_odd_multiples_aff, (Q, ec, wd)))  # noqa: SLF001
+                    fam.append((cg._cached_fixed_base_multiples, (Q, ec, wd)))  # noqa: SLF001
+    elif w["family"] == "base58":
+        keys = [_XPRV, _ACC] + [derive(_XPRV, f"m/0/{i}") for i in range(w["n"])] + \
+               [xpub_from_xprv(derive(_XPRV, f"m/0/{i}")) for i in range(w["n"])]
+        for k in keys:
+            for spelled in (k, k.encode(), " " + k, k + " ", k.lower(), k[:-1] + ("1" if k[-1] != "1" else "2")):
+                fam.append((bip32_mod._cached_base58_decode, (spelled,)))  # noqa: SLF001
+    elif w["family"] == "second_generator":
+        for name in ("secp256k1", "secp160r1", "secp112r1", "secp192k1"):
+            for hf in (hashlib.sha256, hashlib.sha1, hashlib.sha512):
+                fam.append((pedersen.second_generator, (_curve(name), hf)))
+    order = fam + fam
+    rng.shuffle(order)
+    answered = 0
+    for f, args in order:
+        if not _same(f, f.__wrapped__, args):
+            return False, f"{f.__wrapped__.__name__}{str(args)[:120]} differs from its undecorated self"
+        try:
+            f(*args)
+            answered += 1
+        except Exception:  # noqa: BLE001
+            pass
+    if answered * 4 < len(order):
+        raise common.HarnessError(f"cache.vs_uncached {w['family']}: only {answered}/{len(order)} calls answered")
+    return True, f"{len(order)} calls, {answered} answered"
 
 
 # =============================================================================== threads (a search)
@@ -855,6 +931,7 @@ ORACLES = {
     "wallet.invariant": _o_wallet_invariant,
     "cache.independent": _o_cache_independent,
     "cache.key_sound": _o_key_sound,
+    "cache.vs_uncached": _o_vs_uncached,
     "threads.search": _o_threads,
 }
 
@@ -878,13 +955,22 @@ def run(ctx):
             set_serving(serving=True)
 
 
+def _lap(ctx, name, t=[0.0]):  # noqa: B006 - section timings into the evidence
+    import time  # noqa: PLC0415
+    now = time.time()
+    if name:
+        ctx.count("seconds", name, round(now - t[0], 1))
+    t[0] = now
+
+
 def _run(ctx, rng, thorough):
+    _lap(ctx, None)
     # ---------------------------------------------------------------- nonce
     variants = ["real", "real", "real", "k1zero", "k2n", "short", "badtail", "spent", "long"]
     kinds = ["right", "right", "other", "zero", "n", "neg", "stranger"]
     depth = 6 if thorough else 4
     cases = []
-    for sid0, j in ((0, 0), (1, 2), (2, 1), (5, 0), (6, 1), (7, 0)) if thorough else ((0, 0), (1, 2)):
+    for sid0, j in ((0, 0), (1, 2), (2, 1), (5, 0), (6, 1), (7, 0)) if thorough else ((1, 2),):
         alpha = [_sign_op(sid0, _prv(sid0, j, "right")), _sign_op(sid0, _prv(sid0, j, "other")),
                  _sign_op(3, _prv(sid0, j, "right")), _sign_op((sid0 + 1) % 3, _prv(sid0, j, "right")), "P"]
         n0 = _nonce0(sid0, j, "real")
@@ -918,6 +1004,7 @@ def _run(ctx, rng, thorough):
                for _ in range(rng.randrange(1, 7))]
         ctx.check("nonce.single_use", {"sid": sid0, "j": j, "variant": rng.choice(variants), "ops": ops})
 
+    _lap(ctx, "nonce")
     # ---------------------------------------------------------------- signers
     core = ["S1", "S0", "W", "E", "X"]
     for kind in ("dsa", "ssa"):
@@ -940,6 +1027,7 @@ def _run(ctx, rng, thorough):
         ctx.check("signer.wiped_dead", {"kind": kind, "delegated": delegated, "ops": ops})
     ctx.correspond("signer.random", EXE, cases, nontrivial=_nt)
 
+    _lap(ctx, "signers")
     # ---------------------------------------------------------------- software signer
     salpha = ["C", "xpub:1", "sign_message:1", "sign_ecdsa:1", "sign_schnorr_script_path:1", "display_address:1"]
     d = 5 if thorough else 3
@@ -952,12 +1040,15 @@ def _run(ctx, rng, thorough):
         ops = [rng.choice(sall) for _ in range(rng.randrange(1, 10))]
         cases.append((f"soft {';'.join(ops)}", _fmt(_soft_run(ops))))
     ctx.correspond("soft.random", EXE, cases, nontrivial=_nt)
+    # found by this oracle on /repo before 6b38e831 (the three KeyManager methods did not call _assert_open);
+    # the key is kept stable so that a regression is recognised as the same finding
     for m in SIGNING:
         for before in ([], ["xpub"], [m]):
             ctx.check("softsigner.closed_never_signs", {"method": m, "before": before},
                       key="softwaresigner-closed-still-signs-through-keymanager" if m.startswith("sign_ecdsa") or
                       m.startswith("sign_schnorr") else None)
 
+    _lap(ctx, "software_signer")
     # ---------------------------------------------------------------- wallets
     fa, fk = _tok(FOREIGN_ADDR), _tok(_foreign_key_addr())
     alphabets = {
@@ -1000,6 +1091,7 @@ def _run(ctx, rng, thorough):
         ctx.count("wallet.cfg", cfg)
     ctx.correspond("wallet.random", EXE, cases, nontrivial=_nt)
 
+    _lap(ctx, "wallets")
     # ---------------------------------------------------------------- memo: the LRU instance is functools'
     cases = []
     for _ in range(ctx.n(150, 3000)):
@@ -1008,6 +1100,7 @@ def _run(ctx, rng, thorough):
         cases.append((f"memo {ms} {';'.join(ops)}", _fmt(_memo_run(ms, ops))))
     ctx.correspond("memo.lru", EXE, cases)
 
+    _lap(ctx, "memo")
     # ---------------------------------------------------------------- cache independence (real code alone)
     calls = []
     for name in ("secp256k1", "secp112r1", "secp160r1", "secp192k1"):
@@ -1042,7 +1135,8 @@ def _run(ctx, rng, thorough):
     for d_ in calls:
         conds = list(conds_all)
         rng.shuffle(conds)
-        ctx.check("cache.independent", {"call": d_, "conds": conds, "n": 300 if not thorough else 3000})
+        heavy = d_[0] in ("mult", "prepared") and rng.random() < (0.2 if not thorough else 0.1)
+        ctx.check("cache.independent", {"call": d_, "conds": conds, "n": 150 if not thorough else 1500, "heavy": heavy})
         ctx.count("cache.calls", d_[0])
     for m in range(2, 6 if not thorough else 40):
         for first in ("int", "bool"):
@@ -1053,9 +1147,17 @@ def _run(ctx, rng, thorough):
         ctx.check("cache.key_sound", {"probe": "str_vs_bytes", "xkey": _ACC, "first": first})
         ctx.check("cache.key_sound", {"probe": "str_vs_bytes", "xkey": _XPRV, "first": first})
 
+    for k in range(ctx.n(6, 60)):
+        ctx.check("cache.vs_uncached", {"family": "tables", "seed": rng.getrandbits(32), "point": [rng.randrange(1, 10007), rng.randrange(1, 10007)],
+                                        "a1": rng.randrange(0, 10007), "a2": rng.randrange(0, 10007)})
+    ctx.check("cache.vs_uncached", {"family": "base58", "seed": rng.getrandbits(32), "n": 6 if not thorough else 40})
+    ctx.check("cache.vs_uncached", {"family": "second_generator", "seed": rng.getrandbits(32)})
+
+    _lap(ctx, "caches")
     # ---------------------------------------------------------------- threads: a search, not a proof
-    for k in range(ctx.n(3, 40)):
+    for k in range(ctx.n(2, 40)):
         ctx.check("threads.search", {"seed": ctx.seed * 1000 + k, "threads": 8, "flips": True})
+    _lap(ctx, "threads")
     ctx.note("threads.search is a SEARCH over real CPython schedules (8 threads, switch interval 1e-6 s), not a proof")
 
 
